@@ -583,9 +583,9 @@ class PLoad(_Component):
         """Calculate power and loss in Load"""
         if abs(vi) == 0.0 or _get_lopt(pstate, "off", 0, False):
             if self._params["loss"]:
-                return 0.0, 0.0, 0.0, 0.0, 0.0
+                return 0.0, 0.0, 0.0, 0.0, ta
             else:
-                return 0.0, 0.0, 100.0, 0.0, 0.0
+                return 0.0, 0.0, 100.0, 0.0, ta
         pi = abs(vi * ii)
         tr = pi * self._params["rt"]
         if self._params["loss"]:
@@ -826,7 +826,7 @@ class RLoss(_Component):
         """Calculate power and loss in RLoss"""
         vout = vi - self._params["rs"] * io * np.sign(vi)
         if np.sign(vout) != np.sign(vi) or _get_lopt(pstate, "off", 0, False):
-            return 0.0, 0.0, 0.0, 0.0, 0.0
+            return 0.0, 0.0, 0.0, 0.0, ta
         loss = abs(vi - vout) * io
         pwr = abs(vi * ii)
         tr = loss * self._params["rt"]
@@ -934,7 +934,7 @@ class VLoss(RLoss):
         """Calculate power and loss in VLoss"""
         vout = vi - self._ipr._interp(abs(io), abs(vi)) * np.sign(vi)
         if np.sign(vout) != np.sign(vi) or _get_lopt(pstate, "off", 0, False):
-            return 0.0, 0.0, 0.0, 0.0, 0.0
+            return 0.0, 0.0, 0.0, 0.0, ta
         loss = abs(vi - vout) * io
         pwr = abs(vi * ii)
         tr = loss * self._params["rt"]
@@ -1097,7 +1097,7 @@ class Converter(_Component):
     def _solv_pwr_loss(self, vi, vo, ii, io, ta, phase, phase_conf=[], pstate={}):
         """Calculate power and loss in Converter"""
         if abs(vi) == 0.0 or _get_lopt(pstate, "off", 0, False):
-            return 0.0, 0.0, 0.0, 0.0, 0.0
+            return 0.0, 0.0, 0.0, 0.0, ta
         if io == 0.0:
             loss = abs(self._params["iq"] * vi)
         else:
@@ -1302,7 +1302,7 @@ class LinReg(_Component):
     def _solv_pwr_loss(self, vi, vo, ii, io, ta, phase, phase_conf=[], pstate={}):
         """Calculate power and loss in LinReg"""
         if abs(vi) == 0.0 or _get_lopt(pstate, "off", 0, False):
-            return 0.0, 0.0, 0.0, 0.0, 0.0
+            return 0.0, 0.0, 0.0, 0.0, ta
         v = min(abs(self._params["vo"]), max(abs(vi) - self._params["vdrop"], 0.0))
         loss = self._ipr._interp(abs(io), abs(vi)) * abs(vi)
         if abs(io) > 0.0:
@@ -1452,7 +1452,7 @@ class PSwitch(_Component):
     def _solv_pwr_loss(self, vi, vo, ii, io, ta, phase, phase_conf=[], pstate={}):
         """Calculate power and loss in PSwitch"""
         if abs(vi) == 0.0 or _get_lopt(pstate, "off", 0, False):
-            return 0.0, 0.0, 0.0, 0.0, 0.0
+            return 0.0, 0.0, 0.0, 0.0, ta
         loss = self._ipr._interp(abs(io), abs(vi)) * abs(vi)
         if abs(io) > 0.0:
             loss += (abs(vi) - abs(vo)) * io
@@ -1623,7 +1623,7 @@ class PMux(_Component):
     def _solv_pwr_loss(self, vi, vo, ii, io, ta, phase, phase_conf=[], pstate={}):
         """Calculate power and loss in PMux"""
         if abs(vi) == 0.0 or _get_lopt(pstate, "off", 0, False):
-            return 0.0, 0.0, 0.0, 0.0, 0.0
+            return 0.0, 0.0, 0.0, 0.0, ta
         loss = self._ipr._interp(abs(io), abs(vi)) * abs(vi)
         if abs(io) > 0.0:
             loss += (abs(vi) - abs(vo)) * io
@@ -1822,11 +1822,11 @@ class Rectifier(_Component):
     def _solv_pwr_loss(self, vi, vo, ii, io, ta, phase, phase_conf=[], pstate={}):
         """Calculate power and loss in Rectifier"""
         if abs(vi) == 0.0 or _get_lopt(pstate, "off", 0, False):
-            return 0.0, 0.0, 0.0, 0.0, 0.0
+            return 0.0, 0.0, 0.0, 0.0, ta
         if self._params["type"] == "diode":
             vout = vi - 2 * self._ipr._interp(abs(io), abs(vi)) * np.sign(vi)
             if np.sign(vout) != np.sign(vi) or _get_lopt(pstate, "off", 0, False):
-                return 0.0, 0.0, 0.0, 0.0, 0.0
+                return 0.0, 0.0, 0.0, 0.0, ta
             loss = abs(vi - vout) * io
             pwr = abs(vi * ii)
             tr = loss * self._params["rt"]
